@@ -439,3 +439,29 @@ def rule_visitor_entry_points(ctx, p, cfg, rid, self_ty_part, documented, what):
             r.require(ok, "extra-form:%s/%s" % (what, name), fn=f, detail="%s only hands its argument on to a documented entry point" % name,
                       fail_detail="the %s visitor also implements %s, and not as a plain hand-over to %s: a form the documentation does not list is accepted, or a listed one is read differently (%s)" % (
                           what, name, "/".join(sorted(documented)), show(e, 4)))
+
+
+def threshold_gates(nl, block, pred):
+    """conditions of `block` in `nl` that are the threshold predicate: a call of `pred`, or - when the predicate was inlined - a
+    comparison with the predicate's own normal form (level <= self.<the field the predicate reads>), in either polarity.
+    Returns (switch block, SwitchInfo, allowed edges, the predicate call (synthesised for the inlined form), label of the admitting edge)."""
+    from l4sa.core import cmp_nf as _nf, deep_strip
+    out = []
+    pe = pred.local_expr(0)
+    pnf = _nf(pe)
+    fld = deep_strip(pnf[2]) if pnf and pnf[0] == "Le" and deep_strip(pnf[1]) == ("param", 2) else None
+    if fld is not None and not (fld[0] == "field" and fld[1] == ("param", 1)):
+        fld = None
+    for sb, si, al in nl.conditions(block):
+        d = strip(si.discr)
+        if d[0] == "call" and d[1] == pred.path:
+            out.append((sb, si, al, d, True))
+            continue
+        if fld is None or not si.is_bool:
+            continue
+        for want in (True, False):
+            nf = _nf(si.discr, want)
+            if nf and nf[0] == "Le" and deep_strip(nf[2]) == fld:
+                out.append((sb, si, al, ("call", pred.path, (("param", 1), nf[1]), None), want))
+                break
+    return out
